@@ -144,23 +144,33 @@ pub fn append_rule(rule: Arc<Rule>) -> bool {
             err
         ),
     }
+    let breaker_rules = BREAKER_RULES.read().unwrap();
+    let rules_of_res = match breaker_rules.get(&rule.resource) {
+        Some(rules_of_res) => rules_of_res,
+        // nothing is known for this resource (the given rule was ignored): nothing to build
+        None => return true,
+    };
+    // the rule map keeps what was given, valid or not; only valid rules are enforced
+    let rules_of_res: HashSet<Arc<Rule>> = rules_of_res
+        .iter()
+        .filter(|r| r.is_valid().is_ok())
+        .cloned()
+        .collect();
+    let mut breaker_map = BREAKER_MAP.write().unwrap();
     let mut placeholder = Vec::new();
+    // the breakers of the resource are rebuilt from all of its rules (reusing the existing ones),
+    // so the whole list is replaced, as `load_rules_of_resource` does
     let new_tcs_of_res = build_resource_circuit_breaker(
         &rule.resource,
-        BREAKER_RULES.read().unwrap().get(&rule.resource).unwrap(),
-        BREAKER_MAP
-            .write()
-            .unwrap()
+        &rules_of_res,
+        breaker_map
             .get_mut(&rule.resource)
             .unwrap_or(&mut placeholder),
     );
-    if !new_tcs_of_res.is_empty() {
-        BREAKER_MAP
-            .write()
-            .unwrap()
-            .entry(rule.resource.clone())
-            .or_default()
-            .push(Arc::clone(&new_tcs_of_res[0]));
+    if new_tcs_of_res.is_empty() {
+        breaker_map.remove(&rule.resource);
+    } else {
+        breaker_map.insert(rule.resource.clone(), new_tcs_of_res);
     }
     true
 }
